@@ -324,11 +324,17 @@ class Exec(ExprMixin, CallMixin):
                 if notnone:
                     self.ctx.locals[name] = SV(ty.inner, ty.get(v.t))
                 return
-            if isinstance(ty, TUnion) and kind == "isinstance" and taken:
+            if isinstance(ty, TUnion) and kind == "isinstance":
                 prim = {"int": TInt, "str": TStr, "bool": TBool, "float": TReal}
                 for i, a in enumerate(ty.alts):
                     if (arg in prim and a == prim[arg]) or (arg == "tuple" and isinstance(a, TTuple)) or (arg == "list" and isinstance(a, TList)):
-                        self.ctx.locals[name] = SV(a, ty.project(v.t, i))
+                        if taken:
+                            self.ctx.locals[name] = SV(a, ty.project(v.t, i))
+                        elif len(ty.alts) == 2:
+                            o = 1 - i
+                            nv = SV(ty.alts[o], ty.project(v.t, o))
+                            self.ctx.assume_wf(nv)
+                            self.ctx.locals[name] = nv
                         return
         except Exception:
             return
@@ -879,6 +885,11 @@ class Exec(ExprMixin, CallMixin):
             if not ct.trusted:
                 raise Unsupported(f"callee {ct.qualname} not found in {ct.path}", node)
         bound = self.bind_args(ct, fi, self_sv, node)
+        gvars = []
+        for gname, gty in ct.ghost.get("ghost_params", {}).items():
+            gv = self.ctx.fresh(sorts.parse_ty(gty), "g_" + gname)
+            bound[gname] = gv
+            gvars.append(gv.t)
         if not self.spec_mode:
             for aname, asrc in (self.cur_contract.ghost.get("call_asserts", {}).get(ct.fname) or {}).items():
                 t = self.truth(self._spec_eval(asrc))
@@ -897,7 +908,7 @@ class Exec(ExprMixin, CallMixin):
             self.frames.append(frame)
             # preconditions
             self.spec_mode = True
-            pres = [(k, self.truth(self.eval(parse_expr(e)))) for k, e in ct.requires.items()]
+            pres = [(k, self.truth(self.eval(parse_expr(e)))) for k, e in ct.requires.items() if k not in ct.ghost.get("ghost_requires", {})]
             same_obj = self.self_sv is not None and "self" in bound and z3.eq(z3.simplify(bound["self"].t), z3.simplify(self.self_sv.t))
             if ct.uses_invariant and "self" in bound and ct.cls in self.reg.classes and same_obj:
                 for k, e in self.reg.classes[ct.cls].invariant.items():
@@ -949,7 +960,12 @@ class Exec(ExprMixin, CallMixin):
             c.locals["result"] = res
             self.spec_mode = True
             for k, e in ct.ensures.items():
-                c.assume(self.truth(self.eval(parse_expr(e))))
+                t = self.truth(self.eval(parse_expr(e)))
+                if gvars:
+                    # the callee's post holds for every value of its ghost parameters
+                    gpre = [self.truth(self.eval(parse_expr(r))) for r in ct.ghost.get("ghost_requires", {}).values()]
+                    t = z3.ForAll(gvars, z3.Implies(z3.And(*gpre), t) if gpre else t)
+                c.assume(t)
             return SV(res.ty, res.t)
         finally:
             self.spec_mode = sm
